@@ -461,6 +461,9 @@ class Disc2D:
         summ = self.proj.ctor_summary(ci)
         if summ.get("kprec", (None,))[0] == "param":
             attrs["kprec"] = self.eng.alg.sym("kappa")
+        elif summ.get("kprec", (None,))[0] == "truthy":
+            from .disc1d import KappaTruthiness
+            raise KappaTruthiness(ci.name, summ["kprec"][1], summ["kprec"])
         return ci, SelfObj(ci, attrs)
 
     def interp_face(self, ci, num):
